@@ -542,7 +542,11 @@ func main() {
 			switch rng.Intn(6) {
 			case 4:
 				// identifiers with letters outside ASCII, among them letters whose encoding contains the byte 0x80
-				ins = []byte([]string{"\nimport π \"u/pi\"\n", "\nimport (À \"a/x\"; 一 \"b/y\")\n", "\nimport Āb \"c/z\"\n", "\nimport _π \"d\"\n"}[rng.Intn(4)])
+				ins = []byte([]string{"\nimport π \"u/pi\"\n", "\nimport (À \"a/x\"; 一 \"b/y\")\n", "\nimport Āb \"c/z\"\n", "\nimport _π \"d\"\n",
+					// letters from further blocks (lead bytes D7, D0, D8, F0), and interpreted paths with escapes - an escaped quote does not end a path
+					"\nimport א \"h/alef\"\n", "\nimport (д \"c/de\"; ب \"a/ba\"; 𝑥 \"m/x\")\n", "\nimport שלום \"h/s\"\nimport \"after\"\n",
+					"\nimport \"a\\\"b\"\nimport \"next\"\n", "\nimport (\"x\\\"y\"; \"z\")\n", "\nimport \"a\\\\\"\nimport \"b\"\n", "\nimport \"\\\\\\\"\"\n",
+					"\nimport \"\\u00e9/x\"\nimport q \"t\\tab\"\n"}[rng.Intn(12)])
 			case 5:
 				ins = nil
 				for _, nm := range []string{"π", "À", "一x", "Ā"} {
